@@ -95,6 +95,8 @@ def standard_lattice(seed, quick):
         {"model": "G2step"},
         {"model": "G2ba"},
         {"model": "G2ba", "kwargs": {"reparameterisations": {"a": "inversion", "b": "logit"}}},
+        {"model": "G2edge"},
+        {"model": "G2edge", "kwargs": {"reparameterisations": "null"}},
         {"model": "G2open"},
         {"model": "G2open", "kwargs": {"reparameterisations": "null"}},
         {"model": "G2step", "resume": "every", "kwargs": {"nlive": 10, "poolsize": 10}},
